@@ -344,3 +344,85 @@ def audit_fatal(defn):
     """True when the definition cannot be interpreted at all by this reference
     (that is C16's business; the other properties skip and count it)."""
     return any(code in FATAL_CODES for code, _ in audit(defn))
+
+
+# ------------------------------------------------------------------ spans
+def leaf_spans(nodes, idx=(), off=0, out=None):
+    """[(attribute-or-bitfield name with suffix, start, end)] in payload order."""
+    if out is None:
+        out = []
+    sfx = suffix(idx)
+    for nd in nodes:
+        if nd[0] == "f":
+            n = len(codec.enc_raw(nd[2], nd[4]))
+            out.append((nd[1] + sfx, off, off + n))
+            off += n
+        elif nd[0] == "b":
+            n = codec.tsize(nd[2])
+            out.append((nd[1] + sfx, off, off + n))
+            off += n
+        else:
+            for i, it in enumerate(nd[2]):
+                off = leaf_spans(it, idx + (i + 1,), off, out)[1]
+    return out, off
+
+
+def first_diff_field(nodes, a: bytes, b: bytes):
+    """Name of the first field whose bytes differ between payloads a and b."""
+    spans, total = leaf_spans(nodes)
+    for name, s, e in spans:
+        if a[s:e] != b[s:e]:
+            return name
+    if len(a) != len(b):
+        return "<length>"
+    return "<none>"
+
+
+def zero_raw(t):
+    if t == "CH":
+        return b""
+    k = t[0]
+    if k in codec.INT_LETTERS or k == "R":
+        return 0
+    if k in "XC":
+        return b"\x00" * codec.tsize(t)
+    return [0] * codec.tsize(t)
+
+
+def restrict_full(defn, nodes, keep, bf, count_fn):
+    """restrict() + group re-sizing following the definition `defn`."""
+    def walk(d, ns, idx, top):
+        out = []
+        if top is None:
+            top = out
+        sfx = suffix(idx)
+        for (k, v), nd in zip(d.items(), ns):
+            if nd[0] == "f":
+                out.append(list(nd) if nd[1] + sfx in keep else [nd[0], nd[1], nd[2], nd[3], zero_raw(nd[2])])
+            elif nd[0] == "b":
+                if bf:
+                    out.append(["b", nd[1], nd[2],
+                                [[f, t, (val if (f + sfx) in keep and not f.startswith("reserved") else 0)]
+                                 for f, t, val in nd[3]], 0])
+                elif nd[1] + sfx in keep:
+                    out.append(["b", nd[1], nd[2], [list(f) for f in nd[3]], nd[4]])
+                else:
+                    out.append(["b", nd[1], nd[2], [[f, t, 0] for f, t, _ in nd[3]], 0])
+            else:
+                n, sub = v
+                if isinstance(n, int):
+                    cnt = n
+                elif n == "None":
+                    cnt = 0  # variable-by-size groups cannot be built from keywords
+                else:
+                    cnt = count_fn(top, n, int(leaf_lookup(top, n) or 0))
+                its = []
+                for i in range(cnt):
+                    src = nd[2][i] if i < len(nd[2]) else None
+                    if src is None:
+                        break
+                    its.append(walk(sub, src, idx + (i + 1,), top))
+                out.append(["g", nd[1], its])
+        return out
+
+    return walk(defn, nodes, (), None)
